@@ -109,14 +109,14 @@ impl Oplog {
                 let h1_outcome = if let Some(h1) =
                     existing.get(OplogSlot::FirstHeader as usize..OplogSlot::SecondHeader as usize)
                 {
-                    Self::validate_leader(h1)?
+                    torn_as_none(Self::validate_leader(h1))?
                 } else {
                     None
                 };
                 let h2_outcome = if let Some(h2) =
                     existing.get(OplogSlot::SecondHeader as usize..OplogSlot::Entries as usize)
                 {
-                    Self::validate_leader(h2)?
+                    torn_as_none(Self::validate_leader(h2))?
                 } else {
                     None
                 };
@@ -172,7 +172,9 @@ impl Oplog {
                     let mut entries: Vec<Entry> = Vec::new();
                     let mut entry_ends: Vec<usize> = Vec::new();
                     let mut partials: Vec<bool> = Vec::new();
-                    while let Some(entry_outcome) = Self::validate_leader(entries_buff)? {
+                    while let Some(entry_outcome) =
+                        torn_as_none(Self::validate_leader(entries_buff))?
+                    {
                         // Entries carry the header bit that was current when they were written.
                         // Entries of a previous header generation can be left behind when a flush
                         // wrote its header but did not get to truncate the log: ignore them.
@@ -458,6 +460,16 @@ impl Oplog {
             // Second slot
             (OplogSlot::SecondHeader, !header_bits[1])
         }
+    }
+}
+
+/// A checksum mismatch means that a header slot or an entry was not written completely
+/// (a torn write). Like the Javascript version, treat that as "nothing valid here", so that
+/// opening falls back to the other header slot, or stops reading entries.
+fn torn_as_none<T>(result: Result<Option<T>, HypercoreError>) -> Result<Option<T>, HypercoreError> {
+    match result {
+        Err(HypercoreError::InvalidChecksum { .. }) => Ok(None),
+        other => other,
     }
 }
 
